@@ -18,7 +18,13 @@ META = {
              "object, invariant RePriorFresh, deviation StaleCacheAfterAssign refuted): mean / location and precision / scale of one "
              "GMRF (orders 0-2) / LMRF / CMRF object are replaced through the public attributes, cold, warm and evaluating after "
              "each assignment; log-density (rank, log pseudo-determinant, quadratic form), sqrtprec, rank and D(x - location) must be "
-             "those of the current parameters (integer facts emitted by TLC)."),
+             "those of the current parameters (integer facts emitted by TLC). Live part (specs/DiffOpsLive.tla; oracle: the density an "
+             "object reports is the documented density at the parameter values it reports through its public getters at that moment): "
+             "every parameter of every family is tagged Live / Snapshot / Scalar in the spec (LvTags); behaviours Evaluate(logpdf | "
+             "gradient) / Edit(slice | item by item | += | through the array the caller handed in) / Assign on ONE object, invariant "
+             "LvReportedIsUsed, deviation DevKeepsDerived refuted; the mean of GMRF (orders 0-2) and the location of LMRF / CMRF (vector, "
+             "list, scalar) are edited IN PLACE through the getter-returned array and logpdf / gradient (LMRF: pdf) must be those of "
+             "D (x - location) for the location the getter reports (four locations x two scales per configuration, integer facts)."),
     "note": ("Bounded sizes; sign convention of `backward` rows and multiplicity of the periodic wrap row are not documented "
              "and are recorded as observations, not asserted. log pseudo-determinant evaluated numerically from TLC's "
              "integer precision matrix."),
